@@ -34,7 +34,7 @@ Section SelExpr.
     - ok_step H. pose proof (IHx1 Hs1 _ _ _ _ Hf E) as H1.
       eapply incl_tran; [|exact H1]. eapply IHx2; eauto. eapply flat_incl; eauto.
     - ok_step H. ok_step H. inv H. eapply incl_tran. apply dedup_id_incl. apply incl_app; eauto.
-    - ok_step H. ok_step H. inv H. eapply incl_tran. apply incl_filter. eauto.
+    - ok_step H. ok_step H. inv H. eapply incl_tran. apply dedup_id_incl. eapply incl_tran. apply incl_filter. eauto.
     - ok_step H. ok_step H. inv H. apply incl_app; eauto.
     - ok_step H. ok_step H. inv H. eapply incl_tran. apply incl_filter. eauto.
     - ok_step H. ok_step H. inv H. eapply incl_tran. apply incl_filter. apply incl_app; eauto.
